@@ -59,6 +59,8 @@ structure Universe where
   solvs : List (Nat × SolvInfo) := []
   vsets : List (Nat × VsInfo) := []
   unions : List (Nat × List Nat) := []
+  /-- the provider's `filter_candidates` returns its result in reverse input order (the trait promises no order) -/
+  filterRev : Bool := false
 deriving Repr, Inhabited
 
 namespace Universe
@@ -80,10 +82,14 @@ def unionOf (u : Nat) : List Nat := (U.unions.lookup u).getD []
 
 /-- all candidates of the package a version set refers to (empty for an unknown package) -/
 def pkgCands (vs : Nat) : List Nat := match U.pkg? (U.vsName vs) with | some p => p.cands | none => []
+/-- the order in which `filter_candidates` hands back what it keeps -/
+def reord (l : List Nat) : List Nat := if U.filterRev then l.reverse else l
+theorem mem_reord (l : List Nat) (x : Nat) : x ∈ U.reord l ↔ x ∈ l := by
+  unfold reord; split <;> simp
 /-- `filter_candidates(cands, vs, false)` -/
-def candsOf (vs : Nat) : List Nat := (U.pkgCands vs).filter (U.matchesVs vs)
+def candsOf (vs : Nat) : List Nat := U.reord ((U.pkgCands vs).filter (U.matchesVs vs))
 /-- `filter_candidates(cands, vs, true)` -/
-def nonMatching (vs : Nat) : List Nat := (U.pkgCands vs).filter (fun s => !U.matchesVs vs s)
+def nonMatching (vs : Nat) : List Nat := U.reord ((U.pkgCands vs).filter (fun s => !U.matchesVs vs s))
 /-- `Requirement::version_sets` -/
 def reqVersionSets : Req → List Nat
   | .single vs => [vs]
